@@ -476,7 +476,7 @@ func c10Run(w *explore.Worker, c c10Case) {
 				if c.Mode == "download" {
 					c10Populate(filepath.Join(root, "root"), c.Tree)
 				}
-				if c.Mode == "upload" && c.Target != 0 {
+				if (c.Mode == "upload" || c.Mode == "uploadcut") && c.Target != 0 {
 					for _, e := range c.Tree {
 						if !e.Dir {
 							p := filepath.Join(root, "Uploads", "updir", filepath.FromSlash(e.Path))
@@ -654,6 +654,8 @@ func c10Cases(thorough bool) []c10Case {
 		total := 16 + 200 + 3*(len(ref.FlatFile(info, make([]byte, 5), nil))+40)
 		for k := 1; k < total; k++ {
 			cs = append(cs, c10Case{Mode: "uploadcut", Tree: t, Cut: k})
+			// the same with a partial copy of the first file already there: the cut falls into a resumed item
+			cs = append(cs, c10Case{Mode: "uploadcut", Tree: t, Cut: k, Target: 2})
 		}
 	}
 	return cs
